@@ -191,6 +191,36 @@ pub fn run_elem(case: &Value) -> Value {
         Some(v) => v,
         None => return json!({"error": format!("unknown receiver {}", recv)}),
     };
+    // C16: the element converter applied to every field / variant of the body on its own
+    if let Some(sf) = case["sub_f"].as_str() {
+        let fields: Option<Vec<syn::Field>> = match &el {
+            Elem::DeriveInput(d) => match &d.data {
+                syn::Data::Struct(s) => Some(s.fields.iter().cloned().collect()),
+                _ => None,
+            },
+            Elem::Variant(v) => Some(v.fields.iter().cloned().collect()),
+            _ => None,
+        };
+        if let Some(fs) = fields {
+            out["sub_out"] = Value::Array(
+                fs.into_iter()
+                    .map(|f| crate::ecorpus::dispatch(sf, &Elem::Field(f)).unwrap_or_else(|| json!({"error": "unknown sub receiver"})))
+                    .collect(),
+            );
+        }
+    }
+    if let Some(sv) = case["sub_v"].as_str() {
+        if let Elem::DeriveInput(d) = &el {
+            if let syn::Data::Enum(e) = &d.data {
+                out["sub_out"] = Value::Array(
+                    e.variants
+                        .iter()
+                        .map(|v| crate::ecorpus::dispatch(sv, &Elem::Variant(v.clone())).unwrap_or_else(|| json!({"error": "unknown sub receiver"})))
+                        .collect(),
+                );
+            }
+        }
+    }
     if let Some(twin) = case["twin_src"].as_str() {
         // the same receiver on a second source (C08: another partition of the same items)
         let mut c2 = case.clone();
